@@ -27,9 +27,20 @@ type vOp struct {
 
 // vWriteOp writes one arbitrary operation through the public Buffer API and returns what was
 // written.
-func vWriteOp(b *Buffer, maxLen int) vOp {
+func vWriteOp(b *Buffer, maxLen int) vOp { return vWriteOpOf(b, maxLen, false) }
+
+// vWriteOpOf with few=true restricts the kinds to a value-less and a variable-size operation
+// (enough where the payload bytes are opaque to the code under test).
+func vWriteOpOf(b *Buffer, maxLen int, few bool) vOp {
 	var o vOp
-	o.kind = vndChoice("kind", vkN)
+	if few {
+		o.kind = vkOp
+		if vndChoice("kind2", 2) == 1 {
+			o.kind = vkBytes
+		}
+	} else {
+		o.kind = vndChoice("kind", vkN)
+	}
 	o.op = OpType(vndU8("op") & 7)
 	vndAssume(o.op <= Skip)
 	o.off = vndU32("off")
